@@ -1,6 +1,10 @@
 package main
 
 import (
+	"cuelabs.dev/go/oci/ociregistry/ociserver"
+	"cuelabs.dev/go/oci/ociregistry/ociclient"
+	"cuelabs.dev/go/oci/ociregistry/ociauth"
+	"net/http"
 	"bytes"
 	"context"
 	"encoding/json"
@@ -41,8 +45,9 @@ type c07 struct {
 	cur error
 	// wmode: "" = starting or resuming an upload fails with cur; "write" = the backend's writer is
 	// handed out and its Write fails with cur; "commit" = its Commit fails with cur
-	wmode string
-	ch    *chain
+	wmode  string
+	ch     *chain
+	chAuth *chain
 }
 
 // c07Writer is the backend's upload writer for the Writer* carriers.
@@ -86,6 +91,16 @@ func newC07() *c07 {
 		return &c07Writer{e: e, id: id}, nil
 	}
 	e.ch = newChain(f, 3, nil, nil)
+	// the same chain with registries that challenge (WWW-Authenticate on every 401) and clients that use
+	// the standard auth transport without credentials for these hosts
+	e.chAuth = newChain(f, 3, &ociserver.Options{
+		WriteError: func(w http.ResponseWriter, _ *http.Request, err error) {
+			if _, status := ociregistry.MarshalError(err); status == http.StatusUnauthorized {
+				w.Header().Set("WWW-Authenticate", `Basic realm="registry"`)
+			}
+			ociregistry.WriteError(w, err)
+		},
+	}, &ociclient.Options{Transport: ociauth.NewStdTransport(ociauth.StdTransportParams{})})
 	return e
 }
 
@@ -302,12 +317,16 @@ func (e *c07) Impl(c Case) []string {
 	for i, l := range c.Lines {
 		out[i] = guard(func() string {
 			t := strings.Split(l, " ")
-			if len(t) < 5 || t[0] != "err" || (t[1] != "hop" && t[1] != "hopbig") {
+			if len(t) < 5 || t[0] != "err" || (t[1] != "hop" && t[1] != "hopbig" && t[1] != "hopa") {
 				return "bad-op"
+			}
+			ch := e.ch
+			if t[1] == "hopa" {
+				ch = e.chAuth
 			}
 			n, _ := strconv.Atoi(t[2])
 			err, rest, ok := parseErrExpr(t[4:])
-			if !ok || len(rest) != 0 || n < 0 || n >= len(e.ch.regs) {
+			if !ok || len(rest) != 0 || n < 0 || n >= len(ch.regs) {
 				return "bad-op"
 			}
 			e.cur = err
@@ -315,7 +334,7 @@ func (e *c07) Impl(c Case) []string {
 			if strings.HasPrefix(t[3], "PushBlobChunkedResume") || t[3] == "WriterResumeExplicit" {
 				// a genuine upload ID for this hop: start an upload while the backend still cooperates
 				e.wmode = "commit"
-				w, err := e.ch.regs[n].PushBlobChunked(context.Background(), "foo/bar", 0)
+				w, err := ch.regs[n].PushBlobChunked(context.Background(), "foo/bar", 0)
 				if err != nil {
 					return "harness: cannot start an upload: " + err.Error()
 				}
@@ -323,7 +342,7 @@ func (e *c07) Impl(c Case) []string {
 				w.Close()
 				e.wmode = ""
 			}
-			obs := observeErr(callCarrier(e.ch.regs[n], t[3]))
+			obs := observeErr(callCarrier(ch.regs[n], t[3]))
 			if strings.HasPrefix(t[3], "Writer") && n > 0 {
 				// BlobWriter methods are not among the property's carriers for the message clause: the
 				// client and server add context to the message on purpose ("cannot close BlobWriter: …").
@@ -406,6 +425,28 @@ func (*c07) Gen(rng *RNG, tier string) []Case {
 	}
 	for i := 0; i < n; i++ {
 		add(pick(rng, c07Carriers), c07ErrExpr(rng))
+	}
+	// through registries that challenge and clients with the auth transport (no credentials): errors that
+	// travel as 401 meet the auth flow on their way, the others pass it by
+	addA := func(carrier, expr string) {
+		var ls []string
+		for n := 0; n <= 3; n++ {
+			ls = append(ls, fmt.Sprintf("err hopa %d %s %s", n, carrier, expr))
+		}
+		cases = append(cases, Case{Tag: "auth-chain", Lines: ls})
+	}
+	for _, c := range c07Carriers {
+		addA(c, "W "+tok("UNAUTHORIZED")+" "+tok("authentication required")+" -")
+		addA(c, "W "+tok("UNAUTHORIZED")+" "+tok("please log in")+" "+tok(`{"need":"pull"}`))
+		addA(c, "H 401 W "+tok("TOKEN_EXPIRED")+" "+tok("token expired")+" "+tok(`[1, 2]`))
+		addA(c, "W "+tok("DENIED")+" "+tok("requested access to the resource is denied")+" -")
+	}
+	na := 200
+	if tier == "thorough" {
+		na = 5000
+	}
+	for i := 0; i < na; i++ {
+		addA(pick(rng, c07Carriers), c07ErrExpr(rng))
 	}
 	// error bodies around the client's size limit (8 KiB): up to and including the limit the error must
 	// keep its identity; beyond it the client cannot decode the body (recorded finding F24), and the
